@@ -68,7 +68,7 @@ def run(chk, facts, tier):
     for h, req in spec['handlers'].items():
         cls = 'security_manager_impl' if h == 'handle_pairing_request' else 'security_manager_base'
         for fn in variants(facts, 'bluetoe::details::%s::%s' % (cls, h), chk):
-            effs = effects(fn)
+            effs = effects(fn, facts)
             if not effs:
                 chk.instance('handler-preconditions', fn, h, False, 'no protocol effects found', key=h)
                 continue
@@ -141,14 +141,6 @@ def run(chk, facts, tier):
                      '' if ok else 'the peripheral random / STK is produced on a path where the central\'s confirm value was not verified', key='legacy random')
 
     # ---- Eb / completion only after Ea verified
-    def ea_verified(fn, node):
-        for l, op, r in guard_atoms(fn, node):
-            if op == '!=' and cval(r) == 0 and not isinstance(l, int) and strip_casts(l).is_call('equal'):
-                c = strip_casts(l)
-                if any(mentions(a, 'input') for a in c.args()) and any(mentions(a, 'calc_ea') or mentions(a, 'ea') for a in c.args()):
-                    init = local_init(fn, 'calc_ea')
-                    return init is not None and init.is_call('f6')
-        return False
     n = 0
     for fn in facts.functions:
         if not fn.q.startswith('bluetoe::details::security_manager'):
@@ -160,7 +152,7 @@ def run(chk, facts, tier):
                 sites.append(st)
         for s in sites:
             n += 1
-            ok = ea_verified(fn, s)
+            ok = ea_verified(facts, fn, s)
             what = 'lesc_pairing_completed()' if s.d.get('call') else 'output[0] = pairing_dhkey_check'
             chk.instance('dhkey-after-ea', fn, '%s in %s' % (what, fn.name), ok,
                          '' if ok else 'the peripheral sends its DHKey check / completes LESC pairing on a path that never compared the central\'s DHKey check Ea', node=s, key='%s in %s' % (what, fn.name))
